@@ -439,6 +439,104 @@ static bool check_history(const std::vector<Ev>& h, mc::Report& rep, long idx, b
     return true;
 }
 
+// sizes: many declarations (beyond a fixed-size table or bitmask of letters / items).  n items of the three kinds in three
+// groups with pairwise different letters parse; one more item re-using the letter of item k makes the parser refuse;
+// re-declaring the k-th name with another kind or in another group is rejected; the identical re-declaration returns the
+// identical object.  variant 0: fresh parser, 1: after a successful parse, 2: after the parser was moved
+static void wide_case(int n, int variant, int k, mc::Report& rep)
+{
+                auto fail = [&](const std::string& clause, const std::string& detail) {
+                    rep.violation(clause, "C13:" + clause + ":wide", mc::J().n("items", n).n("variant", variant).n("k", k).str(),
+                                  std::to_string(n) + " items, " + (variant == 0 ? "fresh parser" : variant == 1 ? "after a successful parse" : "after a move") + ", k=" +
+                                      std::to_string(k) + ": " + detail,
+                                  0);
+                };
+                std::unique_ptr<no::parser> p(new no::parser("prog"));
+                std::string letters;
+                for (int c = 33; c < 127 && static_cast<int>(letters.size()) < n; c++)
+                    if (c != '-' && c != '=')
+                        letters += static_cast<char>(c);
+                std::vector<void*> objs;
+                const char* groups[] = { "", "g1", "g2" };
+                auto declare = [&](no::parser& q, int i, int kind, const std::string& group) -> void* {
+                    std::string name = "item" + std::to_string(i);
+                    no::group& g = group.empty() ? q.group() : q.group(group);
+                    if (kind == 0)
+                        return &g.option(name).optional();
+                    if (kind == 1)
+                        return &g.multi_option(name).optional();
+                    return &g.toggle(name);
+                };
+                auto set_letter = [&](void* o, int kind, const std::string& l) {
+                    if (kind == 0)
+                        static_cast<no::option*>(o)->short_name(l);
+                    else if (kind == 1)
+                        static_cast<no::multi_option*>(o)->short_name(l);
+                    else
+                        static_cast<no::toggle*>(o)->short_name(l);
+                };
+                try
+                {
+                    for (int i = 0; i < n; i++)
+                    {
+                        void* o = declare(*p, i, i % 3, groups[(i / 3) % 3]);
+                        set_letter(o, i % 3, std::string(1, letters[i]));
+                        objs.push_back(o);
+                    }
+                    const char* argv0[] = { "prog" };
+                    if (variant == 1)
+                        p->parse(1, argv0);
+                    if (variant == 2)
+                    {
+                        std::unique_ptr<no::parser> q(new no::parser(std::move(*p)));
+                        p = std::move(q);
+                    }
+                    p->parse(1, argv0); // pairwise different letters: parses
+                    rep.count("executions");
+                    // identical re-declaration returns the identical object
+                    if (declare(*p, k, k % 3, groups[(k / 3) % 3]) != objs[k])
+                        fail("identical-redeclaration-returns-another-object", "item" + std::to_string(k));
+                    // another kind / another group: rejected
+                    for (int alt = 0; alt < 2; alt++)
+                    {
+                        bool threw = false;
+                        try
+                        {
+                            if (alt == 0)
+                                declare(*p, k, (k + 1) % 3, groups[(k / 3) % 3]);
+                            else
+                                declare(*p, k, k % 3, groups[(k / 3 + 1) % 3]);
+                        }
+                        catch (no::parser_error&)
+                        {
+                            threw = true;
+                        }
+                        if (!threw)
+                            fail("conflicting-redeclaration-accepted", std::string("item") + std::to_string(k) + (alt ? " in another group" : " with another kind"));
+                    }
+                    p->parse(1, argv0); // still unambiguous
+                    // one more item with the letter of item k
+                    void* extra = declare(*p, n, 2, "g2");
+                    set_letter(extra, 2, std::string(1, letters[k]));
+                    bool refused = false;
+                    try
+                    {
+                        p->parse(1, argv0);
+                    }
+                    catch (no::parser_error&)
+                    {
+                        refused = true;
+                    }
+                    rep.count("executions");
+                    if (!refused)
+                        fail("parser-with-shared-letter-parses", "item" + std::to_string(n) + " shares the letter '" + std::string(1, letters[k]) + "' with item" + std::to_string(k));
+                }
+                catch (std::exception& e)
+                {
+                    fail("unambiguous-parser-refuses-to-parse", std::string("unexpected exception: ") + e.what());
+                }
+            }
+
 int main(int argc, char** argv)
 {
     auto a = mc::parse_args(argc, argv);
@@ -447,6 +545,17 @@ int main(int argc, char** argv)
     {
         auto doc = js::load(a.replay);
         const js::Value& w = doc.has("witness") ? doc.at("witness") : doc;
+        if (w.has("items"))
+        {
+            mc::Report rep;
+            wide_case(static_cast<int>(w.n("items")), static_cast<int>(w.n("variant")), static_cast<int>(w.n("k")), rep);
+            printf("replay C13: %d declarations\n", static_cast<int>(w.n("items")));
+            for (auto& v : rep.violations)
+                printf("  FAILED clause: %s\n    %s\n", v.second.clause.c_str(), v.second.detail.c_str());
+            if (rep.violations.empty())
+                printf("  conforms\n");
+            return rep.violations.empty() ? 0 : 1;
+        }
         std::vector<Ev> h;
         for (auto& s : w.strings("history"))
             h.push_back(parse_ev(s));
@@ -574,6 +683,10 @@ int main(int argc, char** argv)
             }
     };
     auto rep = sh.run();
+    for (int n : { 33, 65, 90 })
+        for (int variant = 0; variant < 3; variant++)
+            for (int k : { 0, n / 2, n - 1 })
+                wide_case(n, variant, k, rep);
     rep.counters["bound_history_depth"] = d;
     rep.counters["events"] = alpha.size();
     rep.notes["rule"] = "32 events (declare 3 kinds x names a|b x parser|g1|g2, option ab; short_name x|y|''|'xy'; MOVE destroying / keeping the old parser; PARSE); every history of "
